@@ -1196,6 +1196,8 @@ impl Visitor<Diagnostic> for LibraryRenderer {
         visit_comma_separated!(self, node.params.iter(), ParamAssignmentKind);
         self.write_ws(")");
 
+        self.write_ws(";");
+        self.newline();
         Ok(())
     }
 
